@@ -126,4 +126,4 @@ class RawBinaryParser {
     int64_t m_current_entry = -1;
 };
 
-py::dict py_read_bes_raw( py::array_t<uint32_t> data, std::vector<std::string> sub_detectors );
+py::dict py_read_bes_raw( py::array_t<uint32_t, py::array::c_style | py::array::forcecast> data, std::vector<std::string> sub_detectors );
